@@ -652,11 +652,26 @@ class atom(boolean.AndRestriction):
             # we would have matched above). We intersect if we both
             # match the other's endpoint (just checking one endpoint
             # is not enough, it would give a false positive on <=2 vs >2)
-            return restricts.VersionMatch(
-                other.op, other.version, other.revision
-            ).match(ranged) and restricts.VersionMatch(
-                ranged.op, ranged.version, ranged.revision
-            ).match(other)
+            if not (
+                restricts.VersionMatch(other.op, other.version, other.revision).match(
+                    ranged
+                )
+                and restricts.VersionMatch(
+                    ranged.op, ranged.version, ranged.revision
+                ).match(other)
+            ):
+                return False
+            # Between two different versions there always is another one
+            # (bump the revision of the lower). Between two revisions of one
+            # version there only are the revisions in between: >2 vs <2-r1
+            # leaves nothing.
+            if (
+                ranged.op in ("<", ">")
+                and other.op in ("<", ">")
+                and cpv.ver_cmp(ranged.version, None, other.version, None) == 0
+            ):
+                return abs(int(ranged.revision or 0) - int(other.revision or 0)) > 1
+            return True
 
         if other.op == "~":
             # Other definitely matches its own version. If ranged also
